@@ -140,10 +140,6 @@ func Parse(b []byte) (*Parsed, error) {
 					off += 3
 				}
 			}
-			if r.DataLen() > 255 {
-				// FIT messages are limited to 255 bytes of payload.
-				return nil, &ParseError{start, fmt.Sprintf("definition describes %d payload bytes (>255)", r.DataLen())}
-			}
 			slots[r.Local] = len(s.Recs)
 		} else {
 			di := slots[r.Local]
